@@ -59,8 +59,12 @@ func genC02(tier string, seed int64) []Case {
 	for hi, h := range []string{"none", "ok", "timeout", "crash"} {
 		for oi, op := range []string{"response", "error"} {
 			for _, p := range []string{"dispatched", "responded"} {
-				sub := []string{"runtime", "second-connection", "extension"}[(hi+oi)%3]
-				add(c02Desc{History: h, Placement: p, IDClass: "encoded-current", Op: op, Submitter: sub, NExt: 1})
+				for _, sub := range []string{"runtime", "second-connection", "extension"} {
+					if tier != "thorough" && p == "responded" && sub != []string{"runtime", "second-connection", "extension"}[(hi+oi)%3] {
+						continue
+					}
+					add(c02Desc{History: h, Placement: p, IDClass: "encoded-current", Op: op, Submitter: sub, NExt: 1})
+				}
 			}
 		}
 	}
@@ -83,6 +87,7 @@ func genC02(tier string, seed int64) []Case {
 	for _, h := range []string{"none", "ok"} {
 		for _, n := range []int{0, 1} {
 			add(c02Desc{History: h, Placement: "slow-upload", IDClass: "stale", Op: "response", Submitter: "second-connection", NExt: n})
+			add(c02Desc{History: h, Placement: "slow-upload", IDClass: "stale", Op: "error", Submitter: "second-connection", NExt: n})
 		}
 	}
 	if tier == "thorough" {
@@ -301,12 +306,29 @@ func runC02(c *Ctx, d c02Desc) {
 	idB := ev.ReqID()
 	c.Check(!contains(staleIDs, idB), "fresh_id", "C02/id-reused", "request id reused", idB)
 	encoded := func() string {
-		// vary which character is escaped: a dash, the first hex digit, the last one
-		switch len(d.History) % 3 {
+		// spellings that a sloppy comparison could take for the in-flight id: percent-encoding of a
+		// dash / the first / the last character, another letter case, an encoded trailing blank
+		up := strings.ToUpper(idB)
+		switch (len(d.History) + len(d.Op) + len(d.Submitter)) % 6 {
 		case 0:
 			return strings.Replace(idB, "-", "%2D", 1)
 		case 1:
 			return fmt.Sprintf("%%%02X", idB[0]) + idB[1:]
+		case 2:
+			if up != idB {
+				return up
+			}
+			return strings.Replace(idB, "-", "%2d", 1)
+		case 3:
+			// one letter in the other case
+			for i := 0; i < len(idB); i++ {
+				if idB[i] >= 'a' && idB[i] <= 'f' {
+					return idB[:i] + strings.ToUpper(idB[i:i+1]) + idB[i+1:]
+				}
+			}
+			return idB + "%20"
+		case 4:
+			return idB + "%20"
 		}
 		return idB[:len(idB)-1] + fmt.Sprintf("%%%02x", idB[len(idB)-1])
 	}
@@ -438,7 +460,12 @@ func runC02SlowUpload(c *Ctx, w *World, d c02Desc, rtNext *vh.Async) {
 	up := vh.NewParty("rt:uploader", w.E.Addr, w.E.Log, context.Background())
 	defer up.Close()
 	pr, pw := io.Pipe()
-	late := vh.Go(func() *vh.Resp { return up.RespondStream(idA, pr, []byte("answer-A-head|answer-A-tail")) })
+	late := vh.Go(func() *vh.Resp {
+		if d.Op == "error" {
+			return up.ErrorStream(idA, pr, []byte("answer-A-head|answer-A-tail"))
+		}
+		return up.RespondStream(idA, pr, []byte("answer-A-head|answer-A-tail"))
+	})
 	headDone := make(chan struct{})
 	go func() {
 		pw.Write([]byte("answer-A-head|")) // returns once the transport has taken the bytes
@@ -454,7 +481,12 @@ func runC02SlowUpload(c *Ctx, w *World, d c02Desc, rtNext *vh.Async) {
 	// A's timeout (350 ms) fires while the upload is open. Whether A can be answered before the upload
 	// ends is the implementation's business: wait for it only for a bounded time.
 	aDone := invA.Wait(1500 * time.Millisecond)
-	invB := w.E.InvokeAsync([]byte("event-B"), vh.InvokeOpts{})
+	// B is invoked only once A has been answered (a caller arriving while A is still in flight is
+	// legitimately refused, C10); if the open upload keeps A in flight, B follows after the upload
+	var invB *vh.Invocation
+	if aDone {
+		invB = w.E.InvokeAsync([]byte("event-B"), vh.InvokeOpts{})
+	}
 	var rtB *vh.Party
 	var evB *vh.Resp
 	var evBAsync *vh.Async
@@ -492,6 +524,9 @@ func runC02SlowUpload(c *Ctx, w *World, d c02Desc, rtNext *vh.Async) {
 	if !invA.Wait(10 * time.Second) {
 		c.Check(false, "timeout_answers", "C02/slow-upload/a-hangs", "invocation A never returned", nil)
 		return
+	}
+	if invB == nil {
+		invB = w.E.InvokeAsync([]byte("event-B"), vh.InvokeOpts{})
 	}
 	outA := vh.ErrName(invA.Err)
 	c.Check(outA == "timeout" || (outA == "ok" && bytes.Equal(invA.W.Body(), []byte("answer-A-head|answer-A-tail"))), "a_outcome", "C02/slow-upload/a-outcome/"+outA, "invocation A ended with neither the timeout outcome nor its own complete answer", trunc(invA.W.Body()))
